@@ -4,7 +4,7 @@
    table as it was (modulo successfully imported dependencies, see Acceptable), importing the failed
    file again fails again.  The state is the reference table; with VIEW ViewTbl one history is
    exported per (reachable table, file) pair instead of per history.  *)
-EXTENDS Symbols, SymbolsUniverse, Json
+EXTENDS Symbols, Json
 
 CONSTANTS MaxLen,        \* history length
           ExportFullLen, \* export every history up to this length ...
@@ -17,7 +17,7 @@ ViewTbl == tbl
 
 Usable == {f \in FileIds : Compilable(f)}
 
-ProjSyms(T) == {[n |-> n, f |-> LookupRes(T, n)] : n \in Taken(T)}
+ProjSyms(T) == {[n |-> n, f |-> LookupRes(T, n)] : n \in DOMAIN T.syms}
 ProjExts(T) == {[e |-> k[1], t |-> k[2], f |-> T.exts[k]] : k \in DOMAIN T.exts}
 Proj(T) == [syms |-> ProjSyms(T), exts |-> ProjExts(T)]
 
